@@ -165,6 +165,34 @@ def gen_plan(seed, prop, faults, nested=False):
                 formulas.append({'logic': base['logic'], 'tree': t2,
                                  'text_ok': True, 'twin': tw})
             cfg['twins'] = True
+    if cfg['weird_atoms'] and rng.random() < 0.5:
+        # print twins: an atom whose *name* is the text the library prints
+        # for a sub-formula ("not p", "(p or q)") next to that sub-formula
+        # itself - distinct formulas that print alike
+        base = rng.choice(formulas)
+        ats = core.formula_atoms(base['tree']) if 'deep' not in base else []
+        if ats:
+            a = rng.choice(ats)
+            nm, sub = rng.choice([
+                ('not p', ['Not', ['ap', 'p']]),
+                ('(p or q)', ['Or', ['ap', 'p'], ['ap', 'q']]),
+                ('(p and q)', ['And', ['ap', 'p'], ['ap', 'q']]),
+                ('not q', ['Not', ['ap', 'q']])])
+
+            def subst(t):
+                if t[0] == 'ap':
+                    return sub if t[1] == a else t
+                if t[0] == 'bool':
+                    return t
+                return [t[0]] + [subst(x) for x in t[1:]]
+            for t2 in (core.rename_atoms(base['tree'], {a: nm}),
+                       subst(base['tree'])):
+                f2 = dict(base)
+                f2.update({'tree': t2, 'ptwin': nm,
+                           'text_ok': bool(base.get('text_ok')) and
+                           core.text_writable(t2)})
+                formulas.append(f2)
+            cfg['print_twins'] = nm
     cfg['huge_candidate'] = True
     if cfg['large'] or prop == 'C19':
         # shapes that matter on a large structure with a unique marker
@@ -260,6 +288,10 @@ def gen_plan(seed, prop, faults, nested=False):
             for i in range(n):
                 if rng.random() < 0.4:
                     labs[i].append({'s': rng.choice(['p q', 'p  q'])})
+        if cfg.get('print_twins'):
+            for i in range(n):
+                if rng.random() < 0.4:
+                    labs[i].append({'s': cfg['print_twins']})
         structs.append({'A': A, 'family': fam, 'smap': smap, 'labs': labs,
                         'labtype': rng.choice(['list', 'list', 'tuple',
                                                'set', 'frozenset']),
@@ -304,6 +336,16 @@ def gen_plan(seed, prop, faults, nested=False):
         # self-loop (deep paths, shallow everything else); CTL queries only
         n = rng.choice([1100, 1300])
         E = [[i, i + 1] for i in range(n - 1)] + [[n - 1, n - 1]]
+        if rng.random() < 0.4:
+            # ... or one long cycle
+            E[-1] = [n - 1, 0]
+        # every labelling routine gets to walk the whole corridor
+        for t2 in (['E', ['G', ['ap', 'p']]], ['A', ['F', ['ap', 'u']]],
+                   ['A', ['G', ['ap', 'p']]],
+                   ['E', ['G', ['Not', ['ap', 'u']]]],
+                   ['A', ['U', ['ap', 'p'], ['ap', 'u']]]):
+            formulas.append({'logic': 'CTL', 'tree': t2, 'text_ok': True,
+                             'large_ok': True, 'corridor': True})
         lab = [['p'] for _ in range(n)]
         lab[n - 1] = ['p', 'u']
         structs.append({'A': {'n': n, 'E': E, 'lab': lab}, 'family': 'tuple',
@@ -350,6 +392,9 @@ def gen_plan(seed, prop, faults, nested=False):
             # checkers are exponential)
             if large_ok and rng.random() < 0.8:
                 fi = rng.choice(large_ok)
+                if structs[ki].get('huge') and rng.random() < 0.5:
+                    fi = rng.choice([x for x in large_ok
+                                     if formulas[x].get('corridor')])
                 f = formulas[fi]
             else:
                 ki = rng.randrange(len(structs) - 1)
